@@ -412,4 +412,6 @@ def run(cx, tier='quick'):
     rep.assumptions += ['semantics of `if c { return false }` chains, `match`/`if let`, ::core::cmp::PartialEq::ne == !eq for lawful impls',
                         'union PartialEq is covered by C20']
     rep.not_decided += ['behaviour of user-supplied comparison methods']
+    from .binders import check_binder_injectivity
+    check_binder_injectivity(cx, rep, ['::partial_eq::'])
     return rep
